@@ -36,7 +36,7 @@ type roAnalysis struct {
 
 func (c *Ctx) newRO() *roAnalysis {
 	ra := &roAnalysis{c: c, tests: map[*ssa.Function]bool{}, memo: map[roKey][]roRecord{}, busy: map[roKey]bool{}}
-	for _, n := range []string{"Stack.getState", "Condition.getState"} {
+	for _, n := range []string{"Stack.getState", "Condition.getState", "stack.positive"} {
 		if fn := c.anchor("R-RO", n); fn != nil {
 			ra.tests[fn] = true
 		}
@@ -91,7 +91,7 @@ func (ra *roAnalysis) isROTestCall(fa *FnAnalysis, st *State, call *ssa.Call, k 
 	if !(t.K == "P" && t.N == k) && !(t.K == "L" && t.A.K == "P" && t.A.N == k) {
 		return false
 	}
-	if strings.HasSuffix(relName(cal), ".getState") {
+	if strings.HasSuffix(relName(cal), ".getState") || relName(cal) == "stack.positive" {
 		if len(call.Call.Args) < 2 || !isConstInt(call.Call.Args[1], ra.c.ronly) {
 			return false
 		}
@@ -100,6 +100,9 @@ func (ra *roAnalysis) isROTestCall(fa *FnAnalysis, st *State, call *ssa.Call, k 
 }
 
 func (ra *roAnalysis) roTestValue(fa *FnAnalysis, st *State, k int) (bool, bool) {
+	// when the flag was tested more than once on this path, the test made in the
+	// latest memory epoch speaks for the current state
+	best, bestEp, found := false, -1, false
 	for _, b := range fa.fn.Blocks {
 		for _, in := range b.Instrs {
 			call, ok := in.(*ssa.Call)
@@ -107,11 +110,17 @@ func (ra *roAnalysis) roTestValue(fa *FnAnalysis, st *State, k int) (bool, bool)
 				continue
 			}
 			if v, known := fa.knownTerm(st, aTR, fa.term(st, call)); known {
-				return v, true
+				ep, has := st.cep[call]
+				if !has {
+					ep = 0
+				}
+				if !found || ep > bestEp {
+					best, bestEp, found = v, ep, true
+				}
 			}
 		}
 	}
-	return false, false
+	return best, found
 }
 
 func (ra *roAnalysis) hasROFalse(fa *FnAnalysis, st *State, k int) bool {
@@ -722,4 +731,251 @@ func (c *Ctx) ruleNoUnsafe() {
 	if !bad {
 		c.rep.ok("R-BASE", "package", "no unsafe/reflect.Set/go", "?", "trusted-base facts re-checked on this tree")
 	}
+}
+
+// ---------------------------------------------------------------- R-RO-ARG
+
+// termMentionsParam: P(k) occurs somewhere in t.
+func termMentionsParam(t *Term, k int) bool {
+	if t == nil {
+		return false
+	}
+	if t.K == "P" && t.N == k {
+		return true
+	}
+	if termMentionsParam(t.A, k) || termMentionsParam(t.B, k) {
+		return true
+	}
+	return false
+}
+
+// handleBase strips loads and the embedded-pointer field selection from a
+// term naming a *stack / *condition, giving the Stack / Condition it belongs to.
+func handleBase(t *Term) *Term {
+	for t != nil {
+		switch {
+		case t.K == "L":
+			t = t.A
+		case t.K == "F" && t.N == 0:
+			t = t.A
+		default:
+			return t
+		}
+	}
+	return t
+}
+
+// ruleROArgs: an exported method that writes the shared state of an object
+// handed in as an argument (Transfer's destination) does so only after that
+// object's own read-only flag has tested false.
+func (c *Ctx) ruleROArgs() {
+	rep := c.rep
+	ra := c.newRO()
+	n := 0
+	for _, m := range c.handleMethods() {
+		fe := c.eff.fns[m.Fn]
+		var fa *FnAnalysis
+		ord := newOrdinal()
+		for _, site := range fe.sites {
+			ks := map[int][]string{}
+			for _, w := range site.Writes {
+				if w.Root.Kind == 'p' && w.Root.Idx >= 1 && !w.Root.Elem {
+					ks[w.Root.Idx] = append(ks[w.Root.Idx], w.Loc)
+				}
+			}
+			if len(ks) == 0 {
+				continue
+			}
+			if fa == nil {
+				fa = c.eng.analyze(m.Fn, nil)
+			}
+			var idx []int
+			for k := range ks {
+				idx = append(idx, k)
+			}
+			sort.Ints(idx)
+			for _, k := range idx {
+				n++
+				locs := ks[k]
+				sort.Strings(locs)
+				construct := ord.next(fmt.Sprintf("%s writes argument %d", c.describeInstr(site.Instr), k))
+				pos := c.p.instrPos(site.Instr)
+				// the object written: the argument of the site rooted at parameter k
+				var bases []*Term
+				states := fa.statesBefore(site.Instr)
+				if cc := callCommon(site.Instr); cc != nil && len(states) > 0 {
+					for _, a := range c.eff.callArgs(cc) {
+						if c.eff.rootsOf(fe, a)[Root{Kind: 'p', Idx: k}] {
+							bases = append(bases, handleBase(fa.term(states[0], a)))
+						}
+					}
+				}
+				guarded := len(states) > 0
+				for _, st := range states {
+					found := false
+					for _, b := range m.Fn.Blocks {
+						for _, in := range b.Instrs {
+							call, ok := in.(*ssa.Call)
+							if !ok {
+								continue
+							}
+							cal := c.p.callee(&call.Call)
+							if cal == nil || !ra.tests[cal] || len(call.Call.Args) == 0 {
+								continue
+							}
+							if (strings.HasSuffix(relName(cal), ".getState") || relName(cal) == "stack.positive") && (len(call.Call.Args) < 2 || !isConstInt(call.Call.Args[1], c.ronly)) {
+								continue
+							}
+							at := handleBase(fa.term(st, call.Call.Args[0]))
+							if !termMentionsParam(at, k) {
+								continue
+							}
+							same := len(bases) == 0
+							for _, bt := range bases {
+								if bt == at {
+									same = true
+								}
+							}
+							if !same {
+								continue
+							}
+							if v, known := fa.knownTerm(st, aTR, fa.term(st, call)); known && !v {
+								found = true
+							}
+						}
+					}
+					if !found {
+						guarded = false
+					}
+				}
+				if guarded {
+					rep.ok("R-RO-ARG", m.String(), construct, pos, "the argument object's state ("+strings.Join(locs, ", ")+") is written only after its own read-only flag tested false")
+				} else {
+					rep.bad("R-RO-ARG", m.String(), construct, pos, "writes "+strings.Join(locs, ", ")+" of the object passed as argument "+fmt.Sprint(k)+" on a path where that object's read-only flag has not tested false")
+				}
+			}
+		}
+	}
+	rep.Extra["argument_object_write_sites"] = n
+}
+
+// ---------------------------------------------------------------- R-RO-NESTED
+
+// lock bookkeeping is not observable state (C09 lists what is)
+var roBookkeeping = map[string]bool{"EXT:Mutex.Lock": true, "EXT:Mutex.Unlock": true, "nodeConfig.ldr": true}
+
+// ruleRONested: an exported method that reaches into a nested Stack or
+// Condition (an element of the receiver, a Condition's expression) writes it
+// only through a callee that consults the nested object's own read-only flag
+// before every write.
+func (c *Ctx) ruleRONested() {
+	rep := c.rep
+	ra := c.newRO()
+	var roots []*ssa.Function
+	for _, m := range c.handleMethods() {
+		roots = append(roots, m.Fn)
+	}
+	n := 0
+	for _, fn := range c.reach(roots...) {
+		fe := c.eff.fns[fn]
+		if fe == nil {
+			continue
+		}
+		ord := newOrdinal()
+		for _, site := range fe.sites {
+			var nestedRoots []Root
+			seen := map[Root]bool{}
+			var locs []string
+			for _, w := range site.Writes {
+				if w.Root.Kind == 'p' && w.Root.Elem && !roBookkeeping[w.Loc] {
+					if !seen[w.Root] {
+						seen[w.Root] = true
+						nestedRoots = append(nestedRoots, w.Root)
+					}
+					locs = append(locs, w.Loc)
+				}
+			}
+			if len(nestedRoots) == 0 {
+				continue
+			}
+			n++
+			sort.Strings(locs)
+			construct := ord.next(c.describeInstr(site.Instr) + " reaches a nested object")
+			pos := c.p.instrPos(site.Instr)
+			if site.Direct || site.Callee == nil || !c.p.inPkg(site.Callee) {
+				rep.bad("R-RO-NESTED", relName(fn), construct, pos, "a nested object's "+strings.Join(locs, ", ")+" is written directly, without a method of that object consulting its read-only flag")
+				continue
+			}
+			cc := callCommon(site.Instr)
+			var msgs []string
+			for j, a := range c.eff.callArgs(cc) {
+				isNested := false
+				rs := c.eff.rootsOf(fe, a)
+				for _, r := range c.eff.expandFresh(fe, rs) {
+					if seen[r] {
+						isNested = true
+					}
+				}
+				for r := range rs {
+					if seen[r] {
+						isNested = true
+					}
+				}
+				if !isNested {
+					continue
+				}
+				// the caller may have consulted the nested object's flag itself
+				if fa := c.eng.analyze(fn, nil); fa.reachable(site.Instr) && fa.allHold(site.Instr, func(s *State) bool {
+					return ra.roFalseOnTerm(fa, s, handleBase(fa.term(s, a)))
+				}) {
+					continue
+				}
+				for _, sub := range ra.unguarded(site.Callee, j) {
+					if roBookkeeping[sub.loc] || sub.shallow {
+						continue
+					}
+					msgs = append(msgs, fmt.Sprintf("%s written at %s via %s", sub.loc, c.p.instrPos(sub.instr), strings.Join(sub.chain, " -> ")))
+				}
+			}
+			if len(msgs) == 0 {
+				rep.ok("R-RO-NESTED", relName(fn), construct, pos, "every write of the nested object below this call is dominated by the false edge of the nested object's own read-only test")
+			} else {
+				sort.Strings(msgs)
+				rep.bad("R-RO-NESTED", relName(fn), construct, pos, "the nested object is written without its own read-only flag having tested false: "+strings.Join(msgs, "; "))
+			}
+		}
+	}
+	rep.Extra["nested_object_write_sites"] = n
+}
+
+// roFalseOnTerm: on this path a read-only test applied to the object named by
+// term obj (a Stack/Condition value, or the *stack / *condition inside it) has
+// returned false.
+func (ra *roAnalysis) roFalseOnTerm(fa *FnAnalysis, st *State, obj *Term) bool {
+	if obj == nil {
+		return false
+	}
+	c := ra.c
+	for _, b := range fa.fn.Blocks {
+		for _, in := range b.Instrs {
+			call, ok := in.(*ssa.Call)
+			if !ok {
+				continue
+			}
+			cal := c.p.callee(&call.Call)
+			if cal == nil || !ra.tests[cal] || len(call.Call.Args) == 0 {
+				continue
+			}
+			if (strings.HasSuffix(relName(cal), ".getState") || relName(cal) == "stack.positive") && (len(call.Call.Args) < 2 || !isConstInt(call.Call.Args[1], c.ronly)) {
+				continue
+			}
+			if handleBase(fa.term(st, call.Call.Args[0])) != obj {
+				continue
+			}
+			if v, known := fa.knownTerm(st, aTR, fa.term(st, call)); known && !v {
+				return true
+			}
+		}
+	}
+	return false
 }
